@@ -25,7 +25,8 @@ def FLOORS(tier):
     f = {"constraint-histories": 350 if q else 10000, "reductions": 120 if q else 4000, "partial-substitution": 80,
          "arbitrary-float-weight": 80, "logical-method": 100, "class:PCBO": 100, "class:PCSO": 100,
          "symbol-really-present": 300 if q else 9000, "independence-probes": 300, "reduction:nothing-to-reduce": 15,
-         "subs-form:dict": 60, "subs-form:pairs": 60, "subs-form:positional": 40}
+         "subs-form:dict": 60, "subs-form:pairs": 60, "subs-form:positional": 40, "huge-weight": 60,
+         "reduction:symbolic-model-coefficients": 30}
     for s in C.SHAPES:
         f["shape:" + s] = 8 if q else 300
     for R in C.RELS:
@@ -79,7 +80,9 @@ def case(ctx, rng, idx):
 
     def newsym():
         s = sympy.Symbol("lam%d" % len(syms))
-        syms[s] = rng.choice([0.5, 1, 2, 3, 0.25]) if exact else round(rng.uniform(0.1, 5), 6)
+        syms[s] = rng.choice([0.5, 1, 2, 3, 0.25, 2.0 ** 40]) if exact else round(rng.uniform(0.1, 5), 6)
+        if syms[s] > 2 ** 30:
+            ctx.cat("huge-weight")        # a penalty twelve orders of magnitude above the objective's coefficients
         return s
     if rng.random() < 0.4:
         o = gen.rand_terms(rng, labs, 2, lo=1, hi=3)
@@ -239,15 +242,53 @@ def reduction_case(ctx, rng):
     form = rng.choice(["qubo", "quso", "pubo", "puso"])
     deg = rng.choice([2, 3])
     exact = rng.random() < 0.7
-    c = rng.choice([0.5, 1, 2, 4, 16]) if exact else round(rng.uniform(0.1, 9), 6)
+    c = rng.choice([0.5, 1, 2, 4, 16, 2.0 ** 40]) if exact else round(rng.uniform(0.1, 9), 6)
     lam = sympy.Symbol("lam")
     w = {"class": cname, "terms": dict(M), "form": form, "deg": deg, "value": c}
-    ok, Ds = ctx.call("to_%s(lam=Symbol)" % form, oracles.call_form, M, form, deg, lam, None, _w=w)
-    if not ok:
-        return
-    ok, Dc = ctx.call("to_" + form, oracles.call_form, M, form, deg, c, None, _w=w)
-    if not ok:
-        return
+    if rng.random() < 0.3:
+        # the model itself carries the symbol (weights number + k*symbol on some terms, of either sign once substituted, never
+        # zero) and is reduced with the default penalty or a number: symbolic-then-subs == numeric build
+        c = rng.choice([0.5, 1, 2, 4, 5])
+        Ms, Mc = T(), T()
+        for k, v in terms.items():
+            if rng.random() < 0.6:
+                a, b = rng.choice([-3, -1, 1, 2, 6, -8]), rng.choice([-2, -1, 1, 2])
+                if a + b * c == 0:
+                    a += 1
+                Ms[k] += a + b * lam
+                Mc[k] += a + b * c
+            else:
+                Ms[k] += v
+                Mc[k] += v
+        if True:
+            # the reduction works on the boolean image; where a coefficient of that image vanishes only for this particular
+            # value (contributions of several spin terms cancelling), the numeric build has one term less to reduce than
+            # the symbolic one -- a coincidence of the chosen number, not covered by the statement
+            with warnings.catch_warnings():
+                warnings.simplefilter("ignore")
+                full = Ms.to_pubo(deg=10 ** 6) if cname in ("PUSO", "PCSO") else Ms
+            if any(hasattr(v, "free_symbols") and v.free_symbols and v.subs({lam: c}) == 0 for v in full.values()):
+                ctx.cat("reduction:coincidental-cancellation-skipped")
+                return
+        plam = rng.choice([None, None, 3])
+        w = {"class": cname, "symbolic_terms": {k: str(v) for k, v in Ms.items()}, "form": form, "deg": deg, "value": c, "lam": plam}
+        ctx.cat("reduction:symbolic-model-coefficients")
+        M = Ms
+        with warnings.catch_warnings():
+            warnings.simplefilter("ignore")
+            ok, Ds = ctx.call("to_%s(symbolic model)" % form, oracles.call_form, Ms, form, deg, plam, None, _w=w)
+            if not ok:
+                return
+            ok, Dc = ctx.call("to_" + form, oracles.call_form, Mc, form, deg, plam, None, _w=w)
+            if not ok:
+                return
+    else:
+        ok, Ds = ctx.call("to_%s(lam=Symbol)" % form, oracles.call_form, M, form, deg, lam, None, _w=w)
+        if not ok:
+            return
+        ok, Dc = ctx.call("to_" + form, oracles.call_form, M, form, deg, c, None, _w=w)
+        if not ok:
+            return
     ctx.count("reductions")
     ctx.cat("reduction:" + form)
     snap = dict(Ds)
@@ -279,4 +320,4 @@ def reduction_case(ctx, rng):
         ctx.violation("subs:coefficients-differ:reduced-form", "to_%s(lam=Symbol).subs differs from to_%s(lam=c): %r" % (form, form, dict(list(diff.items())[:4])), w)
         return
     if nsym >= 2:
-        ctx.nontrivial((cname, sorted(dict(M).items(), key=repr), form, deg, c))
+        ctx.nontrivial((cname, sorted(((k, str(v)) for k, v in dict(M).items()), key=repr), form, deg, c))
